@@ -108,7 +108,9 @@ def run(tier, seed, pid="C09", extra=()):
     vlib.write_ndjson(bpath, beh)
     tpath = os.path.join(wd, "trace.ndjson")
     summ = vlib.harness(["c09", "--behaviours", bpath, "--out", tpath] + list(extra), timeout=3000)
-    states, n_runs, rej = vlib.validate_runs(pid, "MrpTrace.tla", "MrpTrace.cfg", tpath)
+    # one Layer P, two judges: C09 is held to the reliability rules, C15 to the nonce rules only
+    tcfg = "MrpTrace.cfg" if pid == "C09" else "MrpTraceC15.cfg"
+    states, n_runs, rej = vlib.validate_runs(pid, "MrpTrace.tla", tcfg, tpath)
     for r in rej:
         ck.violation(signature(r).replace("C09", pid), "real MRP: event %s (no. %d of its run) is not allowed by Layer P" % (json.dumps(r["event"]), r["at"]),
                      {"behaviour": beh[r["run"][0].get("run", 0)] if r["run"][0].get("run", 0) < len(beh) else None,
@@ -117,12 +119,17 @@ def run(tier, seed, pid="C09", extra=()):
     # binding self-test: claim success for a message that was never delivered / flip a retransmission's bytes
     bad = {r["run_index"] for r in rej}
     good = [e for ri, run in enumerate(vlib.split_runs(ev)) if ri not in bad for e in run]
-    k = next(i for i, e in enumerate(good) if e.get("ev") == "AppRecv" and i > 5)
-    ev2 = [dict(e) for e in good[:k + 30]]
-    ev2.insert(k + 1, dict(ev2[k]))      # the application receives the same message twice
+    if pid == "C09":
+        k = next(i for i, e in enumerate(good) if e.get("ev") == "AppRecv" and i > 5)
+        ev2 = [dict(e) for e in good[:k + 30]]
+        ev2.insert(k + 1, dict(ev2[k]))      # the application receives the same message twice
+    else:
+        k = next(i for i, e in enumerate(good) if e.get("ev") == "Tx" and i > 5)
+        ev2 = [dict(e) for e in good[:k + 30]]
+        ev2.insert(k + 1, dict(ev2[k], bytes=ev2[k]["bytes"] + 100000, t=ev2[k]["t"] + 5000))      # the same counter with other bytes
     cpath = os.path.join(wd, "trace_corrupt.ndjson")
     vlib.write_ndjson(cpath, ev2)
-    r2 = vlib.tlc_trace(pid, "MrpTrace.tla", "MrpTrace.cfg", cpath, tag="selftest")
+    r2 = vlib.tlc_trace(pid, "MrpTrace.tla", tcfg, cpath, tag="selftest")
     if r2["accepted"] or r2.get("rejected_at") != k + 2:
         raise vlib.ToolError("binding self-test failed: %s" % r2)
     n_tx = sum(1 for e in ev if e.get("ev") == "Tx")
@@ -134,10 +141,10 @@ def run(tier, seed, pid="C09", extra=()):
         "design_models_exhaustive": True,
         "generator": {"tlc_simulated": len(uniq), "fault_schedules_up_to_2_faults": len(beh) - len(uniq)},
         "conformance": {k2: summ[k2] for k2 in ("steps", "matched_steps", "ends")},
-        "trace_validation": {"spec": "MrpTrace.tla (Layer P = MrpProp.tla)", "events": len(ev), "states": states, "rejected_runs": len(rej),
+        "trace_validation": {"spec": "MrpTrace.tla (Layer P = MrpProp.tla, %s)" % tcfg, "events": len(ev), "states": states, "rejected_runs": len(rej),
                              "datagrams": n_tx, "send_results": sum(1 for e in ev if e.get("ev") in ("SendOk", "SendErr")),
                              "timeouts": sum(1 for e in ev if e.get("ev") == "SendErr")},
-        "binding_selftest": {"duplicated_apprecv_at": k + 2, "rejected_at": r2.get("rejected_at"), "ok": True},
+        "binding_selftest": {"what": "duplicated AppRecv" if pid == "C09" else "a second datagram with the same counter and other bytes", "corrupted_at": k + 2, "rejected_at": r2.get("rejected_at"), "ok": True},
         "samples": [beh[1], uniq[0][:10] if uniq else None, ev[:12]],
     })
     if summ.get("ids"):
